@@ -182,12 +182,23 @@ type vWire struct {
 	partialAt   int
 	partialN    int
 	writes      int // Write calls that got as far as the socket
+	more        chan struct{} // closed by feedEOF: a Read blocked on a live wire looks again
+	eof         bool          // set by feedEOF: once the chunks are exhausted Read reports EOF instead of waiting
+}
+
+// feedEOF: the peer of a live wire sends one more chunk and then closes its end
+// (the reader gets the chunk, then io.EOF).
+func (w *vWire) feedEOF(chunk string) {
+	w.chunks = append(w.chunks, chunk)
+	w.eof = true
+	close(w.more)
 }
 
 // vNewLiveWire: a wire whose peer stays silent (Read blocks) until it is closed.
 func vNewLiveWire(chunks ...string) *vWire {
 	w := vNewWire(chunks...)
 	w.hold = make(chan struct{})
+	w.more = make(chan struct{})
 	return w
 }
 
@@ -203,8 +214,13 @@ func (w *vWire) Read(p []byte) (int, error) {
 		w.off = 0
 	}
 	if w.pos >= len(w.chunks) {
-		if w.hold != nil {
-			<-w.hold
+		if w.hold != nil && !w.eof {
+			select {
+			case <-w.hold:
+			case <-w.more:
+				// the peer sent something more (and then hung up)
+				return w.Read(p)
+			}
 			if w.closed > 0 {
 				return 0, errors.New("vWire: use of closed connection")
 			}
